@@ -6,7 +6,7 @@ from . import writer as W
 EXPLANATION = ('R1 unbuffered UDP/Unix emit = exactly one send_to of metric.as_bytes() whole to the address/path stored at '
                'construction from the constructor argument, result returned through SocketStats::update; R2 get_addr takes '
                'the first resolved address; R3 buffered sinks: adapters send each write whole in one datagram (A1), '
-               'newline terminator (A3), flush override under the lock (D1), drop flushes (M11).')
+               'newline terminator (A3), flush override under the lock (D1), and the framing premises M1..M11 of C05 for the shared line writer (drop flushes: M11).')
 
 
 def check(ctx, rep):
@@ -16,8 +16,16 @@ def check(ctx, rep):
     S.rule_A1(ctx, rep, 'R3-A1')
     S.rule_A2_A3(ctx, rep)
     S.rule_lock_discipline(ctx, rep, 'R3-D1', methods=('flush',))
+    # "datagrams of the form described in C05": the buffered UDP/Unix sinks share the line writer, so every framing
+    # premise of C05 is a premise here as well
     m = W.WriterModel(ctx, rep)
     if m.ok:
-        W.rule_M9(m, rep)
-        W.rule_M11(m, rep)
+        W.rule_M1(m, rep)
+        W.rule_M2(m, rep, 'must')
+        W.rule_M3(m, rep)
+        W.rule_M4_M5_M6(m, rep, want=('M4', 'M5'))
+        W.rule_M7(m, rep)
         W.rule_M8(m, rep)
+        W.rule_M9(m, rep)
+        W.rule_M10(m, rep)
+        W.rule_M11(m, rep)
